@@ -69,6 +69,7 @@ def run(ctx, rep):
     pr.all_attrs_rule(ctx, rep, 'R0', ('serde_flatten', 'get_tag_key', 'get_content_key', 'get_serialized_as_type', 'is_skipped'), 7)
     r1(ctx, rep, prog)
     r2(ctx, rep)
+    r2_never_constructed(ctx, rep, prog)
     r3(ctx, rep, prog)
     r4(ctx, rep)
     w(ctx, rep, prog)
@@ -153,6 +154,28 @@ def r2(ctx, rep):
     rejecting = [a for a in arms if a.get('diverges') and 'Err' in a['body'] and a.get('guard') is None]
     ok = bool(rejecting) and not bad
     rep.check(ok, 'R2', 'try_from:tuple', '() accepted, other tuples rejected', 'RustType::try_from: ' + (f"a tuple type is accepted by the arm `{bad[0]['pat'][:40]}{' if ' + vt.show(bad[0]['guard'])[:50] if bad[0].get('guard') else ''}` — only the empty tuple `()` is supported, every other tuple (including `(T,)`) must be rejected" if bad else 'non-empty tuples are no longer rejected'), {'file': f['file'], 'line': (bad[0]['line'] if bad else f['line'])})
+
+
+def r2_never_constructed(ctx, rep, prog):
+    """R2 (who may construct): the IR variants that stand for the unsupported 64-bit / pointer-width integers exist only so that
+    back ends can name them in error messages; no hand-written code of the workspace constructs one (every route from Rust
+    syntax or from a `serialized_as` string to the IR therefore rejects those types).  Positive control: the rule sees the
+    construction of the supported scalar variants."""
+    banned = ('U64', 'I64', 'USize', 'ISize')
+    seen_ok = 0
+    for k, b in prog.bodies.items():
+        if b.get('derived'):
+            continue
+        for a in b['aggregates']:
+            if not a['adt'].endswith('rust_types::SpecialRustType'):
+                continue
+            if a['variant'] in banned:
+                rep.fail('R2', f"never-constructed:{a['variant']}:{b['id'].split('::')[-1]}", f"{b['id']} constructs SpecialRustType::{a['variant']} (`{a.get('snippet', '')[:60]}`): a 64-bit / pointer-width integer type reaches the IR instead of being rejected — back ends other than TypeScript then emit it (Long, UInt64, uint64 …)", {'file': a['file'], 'line': a['line']})
+            else:
+                seen_ok += 1
+    if seen_ok < 10:
+        raise core.Incomplete(f'R2: only {seen_ok} constructions of SpecialRustType variants seen (positive control: the supported scalars are constructed in the type parser)')
+    rep.ok('R2', 'never-constructed:64-bit-variants', f'no hand-written body constructs SpecialRustType::{{U64,I64,USize,ISize}} ({seen_ok} constructions of other variants seen)')
 
 
 def agg(body, adt_suffix, variant):
@@ -293,32 +316,137 @@ def w(ctx, rep, prog):
     for fn, cs in sorted(writers.items()):
         ok = any(fn == a or fn.endswith(a) for a in ALLOWED_WRITERS)
         rep.check(ok, 'W1', f'writer:{fn}', f"{sorted({c['callee'].split('::')[-1] for c in cs})}", f"{fn} creates/writes files ({sorted({c['callee'] for c in cs})[:2]}): only check_write_file, Swift::write_codable_file and store_config may touch the file system — output written elsewhere bypasses the error gate and the compare-before-write discipline", {'file': cs[0]['file'], 'line': cs[0]['line']})
-    # W2
+    # W2 — the error gate.  A *gate* is any function of the CLI crate that reads `ParsedData.errors` (rustc's field
+    # resolution, not a name) and can return Err.  Required, inter-procedurally from generate_types:
+    #  (a) GATED: every call that can reach a file write is dominated by a gate call whose Err is propagated, or is
+    #      itself a call to a function that is GATED;
+    #  (b) no gate evaluation is reachable *after* a write has happened (a gate inside the per-crate write loop lets the
+    #      crates that sort before the failing one be written);
+    #  (c) the gate covers every crate: it takes the whole crate map, or its call site sits in a loop / iterator closure.
     gt = [k for k in prog.find('generate_types', crate='typeshare#bin') if prog.bodies[k]['kind'] == 'fn']
-    b = prog.bodies[gt[0]]
-    cpe = [c for c in b['calls'] if c['callee'].endswith('check_parse_errors')]
-    wg = [c for c in b['calls'] if c['callee'].endswith('write_generated')]
-    site = {'file': b['file'], 'line': b['line']}
-    ok = len(cpe) == 1 and bool(wg) and all(prog.dominates(b, cpe[0]['bb'], x['bb']) for x in wg) and reaches_try(b, cpe[0]['dest']) == 'try'
-    rep.check(ok, 'W2', 'errors-gate-the-writer', 'check_parse_errors(..)? dominates write_generated', 'generate_types can reach write_generated without check_parse_errors having been called and its result propagated with `?`: output is written although a file failed to parse', site)
-    if ok:
-        # no writer reachable from the blocks before the gate
-        pre = [c for c in b['calls'] if prog.dominates(b, c['bb'], cpe[0]['bb']) and c['bb'] != cpe[0]['bb']]
-        pre_roots = [t for c in pre for t in prog.targets_of_call(c)]
-        r2 = cr.reach(pre_roots)
-        early = [prog.bodies[n2[0]]['id'] for n2 in r2 if any(WRITE_API.search(c['callee']) and not c['local'] for c in prog.bodies[n2[0]]['calls'])]
-        early = [e for e in early if not e.endswith('store_config')]
-        rep.check(not early, 'W2', 'no-write-before-gate', 'nothing writes before the error gate', f'{early[:2]} can write files before check_parse_errors runs', site)
-    f = ctx.fn('check_parse_errors', file='cli/src/main.rs')
-    fsite = {'file': f['file'], 'line': f['line']}
-    assigns = [a for a in f['assigns'] if isinstance(a.get('target'), dict) and a['target'].get('k') == 'local']
-    bad = [a for a in assigns if any(fr.get('k') in ('for', 'while', 'loop') for fr in a['guard']) and not (isinstance(vt.strip(a['value']), dict) and vt.strip(a['value']).get('k') == 'lit' and vt.strip(a['value']).get('v') is True)]
-    rep.check(bool(assigns) and not bad, 'W2', 'check_parse_errors:flag-monotone', 'failure flag only ever raised', f"check_parse_errors overwrites its failure flag per crate (`{bad[0]['text']} = {vt.show(bad[0]['value'])[:50]}`): only the last crate decides whether the run aborts — errors in an earlier crate are logged but the CLI exits 0 and writes every file" if bad else 'failure flag not found', fsite)
-    loops = [l for l in f['loops'] if l.get('kind') == 'for']
-    ok = bool(loops) and 'values' in vt.show(loops[0]['over']) and not [c for c in vt.calls_in(loops[0]['over']) if c.get('f') in ('take', 'skip', 'step_by', 'rev', 'last', 'nth', 'next')]
-    rep.check(ok, 'W2', 'check_parse_errors:all-crates', 'every crate inspected', 'check_parse_errors does not iterate over every crate\'s parsed data', fsite)
-    errs = [r for r in f['returns']] + ([{'v': f['tail']}] if f.get('tail') else [])
-    rep.check('Err' in vt.show(f['tail']) or any('Err' in vt.show(r.get('v')) for r in f['returns']), 'W2', 'check_parse_errors:returns-err', 'returns Err when errors were seen', 'check_parse_errors never returns Err', fsite)
+    if len(gt) != 1:
+        raise core.Incomplete('generate_types (cli) not found')
+    site = {'file': prog.bodies[gt[0]]['file'], 'line': prog.bodies[gt[0]]['line']}
+    binc = ctx.mirq('all')['crates']['typeshare#bin']
+    reader_fns = sorted({h['fn'] for h in binc['hir_fields'] if h.get('field') == 'errors' and h.get('owner', '').endswith('parser::ParsedData') and not h.get('exp')})
+    reader_keys = {k for k, bd in prog.bodies.items() if prog.crate_of[k] == 'typeshare#bin' and bd['kind'] != 'closure' and bd['id'] in reader_fns}
+
+    def _writes(k):
+        return any(any(WRITE_API.search(c['callee']) and not c['local'] for c in prog.bodies[k2]['calls']) for k2 in prog.reach([k]) if not prog.bodies[k2]['id'].endswith('store_config'))
+
+    def _errs(k):
+        reg = prog.region([k])
+        return any(a_['variant'] == 'Err' for k2 in reg for a_ in prog.bodies[k2]['aggregates']) or any(re.search(r'anyhow::(Error|__private)', c['callee']) for k2 in reg for c in prog.bodies[k2]['calls'])
+    # a gate: reads the error lists (itself or through local helpers), can fail, and writes nothing
+    gate_keys = [k for k, bd in prog.bodies.items() if prog.crate_of[k] == 'typeshare#bin' and bd['kind'] != 'closure'
+                 and (set(prog.region([k])) & reader_keys) and _errs(k) and not _writes(k)]
+    if not gate_keys and any(_writes(k) for k in reader_keys):
+        raise core.Incomplete('W2: ParsedData.errors is only inspected inside a function that also writes files (inlined gate) — shape not modelled')
+    rep.check(bool(gate_keys), 'W2', 'error-gate-exists', f"gate function(s): {[prog.bodies[k]['id'] for k in gate_keys]}", 'no function of the CLI reads ParsedData.errors and returns Err: recorded parse errors never stop the run, output is written although a file failed to parse', site)
+    if not gate_keys:
+        return
+    gen_path = prog.reach(gt)
+    memo_w, memo_g = {}, {}
+
+    def writes_files(k):
+        if k not in memo_w:
+            memo_w[k] = any(any(WRITE_API.search(c['callee']) and not c['local'] for c in prog.bodies[k2]['calls']) for k2 in prog.reach([k])
+                            if not prog.bodies[k2]['id'].endswith('store_config'))
+        return memo_w[k]
+
+    def reaches_gate(k):
+        if k not in memo_g:
+            r = prog.reach([k])
+            memo_g[k] = any(g in r for g in gate_keys)
+        return memo_g[k]
+
+    def call_class(bd, c):
+        ts = [t for t in prog.targets_of_call(c) if t in prog.bodies]
+        # closures created in this body and handed to the callee run "inside" the call
+        return any(writes_files(t) for t in ts), any(reaches_gate(t) for t in ts), ts
+
+    gated_memo = {}
+
+    def gated(k, stack=()):
+        if k in gated_memo:
+            return gated_memo[k]
+        if k in stack:
+            return (False, 'recursion')
+        bd = prog.bodies[k]
+        cls = [(c,) + call_class(bd, c) for c in bd['calls']]
+        pure_gates = [c for c, w_, g_, ts in cls if g_ and not w_ and reaches_try(bd, c['dest'].split(' ')[0]) in ('try', 'returned')]
+        res = (True, '')
+        for c, w_, g_, ts in cls:
+            if not w_:
+                continue
+            if any(prog.dominates(bd, g['bb'], c['bb']) and (g['bb'] != c['bb'] or bd['calls'].index(g) < bd['calls'].index(c)) for g in pure_gates):
+                continue
+            sub = [gated(t, stack + (k,)) for t in ts if writes_files(t)]
+            direct = any(WRITE_API.search(c['callee']) and not c['local'] for _ in [0])
+            if direct or not sub or not all(x[0] for x in sub):
+                why = next((x[1] for x in sub if not x[0]), '') or f"`{c['snippet'][:60]}` in {bd['id']} is not preceded by a propagated error gate"
+                res = (False, why)
+                break
+        gated_memo[k] = res
+        return res
+
+    okg, whyg = gated(gt[0])
+    rep.check(okg, 'W2', 'errors-gate-the-writer', 'every path from generate_types to a file write passes a propagated error gate first', f"output can be written although a file failed to parse: {whyg} (the gate — a function reading ParsedData.errors and returning Err — must run, and its result be propagated, before anything is written)", site)
+    # (b) no gate evaluation after a write
+    late = []
+    for k in gen_path:
+        bd = prog.bodies[k]
+        cls = [(c,) + call_class(bd, c) for c in bd['calls']]
+        ws = [c for c, w_, g_, ts in cls if w_ or (WRITE_API.search(c['callee']) and not c['local'])]
+        gs = [c for c, w_, g_, ts in cls if g_]
+        for wc in ws:
+            after = prog.reachable_blocks(bd, wc['bb'])
+            for gc in gs:
+                if gc is wc:
+                    cyc = any(wc['bb'] in prog.reachable_blocks(bd, sx) for sx in bd['succ'][wc['bb']])
+                    # one call that both checks and writes, evaluated repeatedly: the 2nd evaluation follows the 1st write —
+                    # unless the callee itself is gated for everything it writes *and* is the top of the path (not in a loop)
+                    if cyc:
+                        late.append((bd, wc, gc))
+                    continue
+                later_same_block = gc['bb'] == wc['bb'] and bd['calls'].index(gc) > bd['calls'].index(wc)
+                strictly_after = gc['bb'] in after and (gc['bb'] != wc['bb'] or any(wc['bb'] in prog.reachable_blocks(bd, sx) for sx in bd['succ'][wc['bb']]))
+                if later_same_block or strictly_after:
+                    late.append((bd, wc, gc))
+    for bd, wc, gc in late[:3]:
+        rep.fail('W2', f"gate-after-write:{bd['id'].split('::')[-1]}", f"in {bd['id']} the error check `{gc['snippet'][:50]}` can run after `{wc['snippet'][:50]}` has already written a file (per-crate checking inside the write loop): crates that come before the failing one are written although the run fails", {'file': gc['file'], 'line': gc['line']})
+    if not late:
+        rep.ok('W2', 'no-write-before-gate', f'{len(gen_path)} bodies on the generation path: no error-gate evaluation is reachable after a file write')
+    # (c) coverage + shape of each gate
+    for gk in gate_keys:
+        gb = prog.bodies[gk]
+        fsite = {'file': gb['file'], 'line': gb['line']}
+        gname = gb['id'].split('::')[-1]
+        whole = any('BTreeMap<' in t or 'HashMap<' in t or 'Vec<' in t or '[' in t for n_, t in gb['locals'].items() if n_ in [f'_{i}' for i in range(1, gb['arg_count'] + 1)] and 'ParsedData' in t)
+        if not whole:
+            in_loop = []
+            for k in gen_path:
+                bd = prog.bodies[k]
+                for c in bd['calls']:
+                    if gk in prog.targets_of_call(c):
+                        cyc = any(c['bb'] in prog.reachable_blocks(bd, sx) for sx in bd['succ'][c['bb']])
+                        in_loop.append(cyc or bd['kind'] == 'closure')
+            rep.check(bool(in_loop) and any(in_loop), 'W2', f'{gname}:all-crates', 'per-crate gate applied in a loop over the crates', f"{gb['id']} inspects one crate's ParsedData and is not called for every crate (no loop around the call): errors of the other crates never stop the run", fsite)
+        cands = [f for f in ctx.astq['functions'] if f['file'] == gb['file'] and f['line'] == gb['line']]
+        if len(cands) != 1:
+            raise core.Incomplete(f"gate {gb['id']}: source not located by the syntax evaluator")
+        f = cands[0]
+        assigns = [a for a in f['assigns'] if isinstance(a.get('target'), dict) and a['target'].get('k') == 'local']
+        bad = [a for a in assigns if any(fr.get('k') in ('for', 'while', 'loop') for fr in a['guard']) and not (isinstance(vt.strip(a['value']), dict) and vt.strip(a['value']).get('k') == 'lit' and vt.strip(a['value']).get('v') is True)]
+        rep.check(not bad, 'W2', f'{gname}:flag-monotone', 'failure flag only ever raised', f"{gname} overwrites its failure flag per crate (`{bad[0]['text']} = {vt.show(bad[0]['value'])[:50]}`): only the last crate decides whether the run aborts — errors in an earlier crate are logged but the CLI exits 0 and writes every file" if bad else '', fsite)
+        if whole:
+            loops = [l for l in f['loops'] if l.get('kind') == 'for']
+            its = [c for c in f['calls'] if c.get('f') in ('values', 'iter', 'into_values', 'into_iter') ]
+            over = loops[0]['over'] if loops else None
+            trunc = [c for c in (vt.calls_in(over) if over is not None else []) if c.get('f') in ('take', 'skip', 'step_by', 'rev', 'last', 'nth', 'next', 'take_while', 'skip_while')]
+            trunc += [c for c in f['calls'] if c.get('f') in ('take', 'skip', 'step_by', 'last', 'nth', 'next', 'first', 'take_while', 'skip_while', 'next_back', 'first_key_value', 'last_key_value', 'pop_first', 'pop_last') and 'ParsedData' in json.dumps(c.get('recv'))[:4000]]
+            rep.check((bool(loops) or bool(its)) and not trunc, 'W2', f'{gname}:all-crates', 'every crate inspected', f"{gname} does not inspect every crate's parsed data ({'truncating adaptor `' + str(trunc[0].get('f')) + '`' if trunc else 'no iteration over the crate map'})", fsite)
+        rep.check('Err' in vt.show(f['tail']) or any('Err' in vt.show(r.get('v')) for r in f['returns']) or any(c.get('f') in ('bail', 'anyhow::bail') for c in f['calls']) or 'bail' in json.dumps(f.get('tail'))[:3000], 'W2', f'{gname}:returns-err', 'returns Err when errors were seen', f'{gname} never returns Err', fsite)
     # W3: errors never cleared / filtered
     bad = []
     for g in ctx.astq['functions']:
